@@ -8,30 +8,33 @@ A12 == ArrV(<<IntV(1), IntV(2)>>)
 A1n3 == ArrV(<<IntV(1), Null, IntV(3)>>)
 A1020 == ArrV(<<IntV(10), IntV(20)>>)
 
-QInDom == <<{IntV(2), Null}, {ArrV(<<>>), A1n3}, {A1020}>>
-QTools == {"id", "inc", "pair", "sub_cond"}
+\* quick grid: one step
+QInDom == <<{IntV(2)}, {A1n3}, {ArrV(<<>>)}>>
+QTools == {"id", "pair"}
 QLMs == {"none", "merge_nested", "merge_flattened"}
-QPVs == {"none", "first_non_null", "the_only_non_null", "all_non_null"}
-QVFs == {"none", "inc", "inx"}
-QDFs == {NoVal, IntV(7)}
-QWhens == {NoWhen, [k |-> "pos", n |-> "x"], [k |-> "no", n |-> "x"]}
+QPVs == {"none", "first_non_null", "all_non_null"}
+QVFs == {"none", "inc"}
+QDFs == {NoVal}
+QWhens == {NoWhen, [k |-> "pos", n |-> "x"]}
 QMethods == {"none", "dotproduct", "nested_crossproduct", "flat_crossproduct"}
-QLoops == {NoLoop, [k |-> "last", lt |-> 4, vf |-> "none"], [k |-> "all", lt |-> 4, vf |-> "none"]}
+QLoops == {NoLoop}
 QOutKinds == {"all"}
 QOutNs == {0, 2}
+QBudgets == {[ctl |-> 1, bind |-> 1, out |-> 1]}
 
-TInDom == <<{IntV(2)}, {A1n3}, {A1020}>>
-TTools == {"id", "nullodd", "pair"}
-TLMs == {"none", "merge_flattened"}
-TPVs == {"none", "first_non_null", "all_non_null"}
+\* thorough grid: one step, more alternatives per feature
+TInDom == <<{IntV(2), Null}, {ArrV(<<>>), A1n3}, {A1020}>>
+TTools == {"id", "inc", "pair"}
+TLMs == QLMs
+TPVs == {"none", "first_non_null", "the_only_non_null", "all_non_null"}
 TVFs == {"none", "inc"}
 TDFs == {NoVal, IntV(7)}
-TWhens == {NoWhen, [k |-> "pos", n |-> "x"]}
-TMethods == {"none", "dotproduct", "flat_crossproduct"}
-TLoops == {NoLoop}
-TOutKinds == {"all", "last"}
+TWhens == {NoWhen, [k |-> "pos", n |-> "x"], [k |-> "no", n |-> "x"]}
+TMethods == QMethods
+TLoops == {NoLoop, [k |-> "all", lt |-> 4, vf |-> "none"]}
+TOutKinds == {"all"}
 TOutNs == {0, 2}
+TBudgets == {[ctl |-> 1, bind |-> 1, out |-> 1]}
 
-MCBudgets == {MaxBudget}
 MCFailOks == {TRUE}
 =============================================================================
